@@ -39,6 +39,10 @@ type strOther struct {
 	W string `@String`
 }
 
+type customGrammar struct {
+	Items []CIface `@@*`
+}
+
 type mappedGrammar struct {
 	Words []string `@(Ident | String | Int)*`
 }
@@ -546,6 +550,39 @@ func concStress(args []string) error {
 			return strings.Join(v.Words, "|")
 		}})
 	}
+	// a production implemented by user code (ParseTypeWith) inside a shared parser
+	custom, cerr := participle.Build[customGrammar](participle.Lexer(coreLexer), participle.Elide("WS", "Comment"), participle.ParseTypeWith(parseCIface))
+	if cerr != nil {
+		return cerr
+	}
+	for _, in := range []string{"a b c d e f g h", "1 2 3", "x ( y ) z", "p q r s t u v w x y z a b c"} {
+		in := in
+		jobs = append(jobs, job{"custom:" + in, func() string {
+			v, err := custom.ParseString("", in)
+			if err != nil {
+				return "err " + err.Error()
+			}
+			var ws []string
+			for _, it := range v.Items {
+				ws = append(ws, it.(PWord).W)
+			}
+			return strings.Join(ws, "|")
+		}})
+	}
+	// deeply nested inputs parsed at the same time (a per-parse limit must not be shared between parses)
+	for _, e := range exs {
+		if e.name == "expr" {
+			e := e
+			deep := e.nested(3000)
+			jobs = append(jobs, job{"deep:3000", func() string {
+				_, err := e.parse("fn", deep)
+				if err != nil {
+					return fmt.Sprintf("err %.60s", err.Error())
+				}
+				return "ok"
+			}})
+		}
+	}
 	ebnfText := "A = \"a\" B* | ~<ident> (?= \"x\") .\nB = (\"b\" | A)+ ."
 	jobs = append(jobs, job{"ebnf", func() string {
 		t, err := ebnf.ParseString(ebnfText)
@@ -645,6 +682,31 @@ func concStress(args []string) error {
 		}()
 	}
 	wg.Wait()
+	// all goroutines parse a deeply nested input AT THE SAME TIME
+	for i, j := range jobs {
+		if j.name != "deep:3000" {
+			continue
+		}
+		var wg2 sync.WaitGroup
+		start := make(chan struct{})
+		for g := 0; g < 8; g++ {
+			wg2.Add(1)
+			go func() {
+				defer wg2.Done()
+				<-start
+				got := j.run()
+				mu.Lock()
+				total++
+				if got != ref[i] {
+					bad++
+					fmt.Printf("MISMATCH\t%s (8 at once)\tconcurrent result %q differs from the sequential reference %q\n", j.name, got, ref[i])
+				}
+				mu.Unlock()
+			}()
+		}
+		close(start)
+		wg2.Wait()
+	}
 	fmt.Printf("DONE\t%d\t%d\n", total, bad)
 	return nil
 }
